@@ -456,7 +456,7 @@ def encode_one(req, last_uid):
     return data
 
 
-def run_history(spec, stats=None):
+def run_history(spec):
     """-> (buckets, classes, nontrivial, counters)"""
     from vlib import harness as H, store
     from kmip.core import exceptions as kexc
@@ -512,7 +512,6 @@ def run_history(spec, stats=None):
                                            auth_settings=None)
             loop_errors = []
             for _ in range(len(blobs) + 2):
-                mark = len(log)
                 try:
                     sess._handle_message_loop()
                 except kexc.ConnectionClosed:
@@ -549,6 +548,9 @@ def run_history(spec, stats=None):
                 bump("B_path:" + path)
                 classes.append("B:path:" + path)
                 classes.append("B:request:" + req.get("kind", "batch"))
+                lab = req.get("label")
+                if lab and not lab.startswith(("ok/", "fail/")):
+                    bump("B_case:%s:%s" % (req.get("kind", "batch"), lab))
                 if info["items"] >= 2:
                     bump("B_responses_with_2+_items")
                     classes.append("B:items>=2")
